@@ -26,15 +26,14 @@ UNIT = {
                 'getEdgeForValue': {'*': 'forest'}},
     'text_subst': [
         # ghost: which entry the running value was taken from (ghost state only)
-        (r'val = mc\.at\(low\)\.getValue\(\);', 'val = (*verif_mc_value(mc, low)); VERIF_PICK(low);', M),
+        (r'val = mc\.at\(low\)\.getValue\(\);', 'VERIF_LOAD(val, mc, low); VERIF_PICK(low);', M),
         (r'val = mci;', 'val = mci; VERIF_PICK(i);', M),
         (r'val = T\(mci\);', 'val = T(mci); VERIF_PICK(i);', M),
-        (r'mc\.at\(i\)\.getValue\(\)', '(*verif_mc_value(mc, i))', M),
+        (r'mc\.at\(i\)\.getValue\(\)', '(*verif_mc_value(&(mc), i))', M),
     ],
-    'extra_free': {'verif_mc_value': 'verif_mc_value', 'VERIF_PICK': 'VERIF_PICK'},
+    'extra_free': {'verif_mc_value': 'verif_mc_value', 'VERIF_PICK': 'VERIF_PICK', 'VERIF_LOAD': 'VERIF_LOAD'},
     'extra_methods': [dict(cls='forest', name='getEdgeForValue', argc=3, cname='forest__getEdgeForValue')],
     'ref_params': {'forest__getEdgeForValue': [2, 3]},
-    'ref_returning': ['verif_mc_value'],
     'functions': [
         rf('isNormal'), rf('isPlusInfinity'), rf('hasType'), rf('isInteger'), rf('setInteger'),
         rf('operator long', cname='rangeval__to_long'),
